@@ -56,7 +56,9 @@ def handleStft (args : List String) : Option String := do
   match args with
   | l :: s :: ce :: ka :: ops =>
     let c : Stft.Cfg := { L := ← l.toNat?, S := ← s.toNat?, centered := ← parseBool ce, kaldi := ← parseBool ka }
-    if c.S = 0 ∨ c.S > c.L then none else
+    -- streaming ops are modelled for 1 ≤ S ≤ L only; `F` (compute_full) for every shift as long as the Kaldi
+    -- left padding L/2 - S/2 is not negative (np.pad rejects that)
+    if c.S = 0 ∨ (c.S > c.L ∧ ops.any (fun o => o.front ≠ 'F')) ∨ (c.kaldi ∧ c.S / 2 > c.L / 2) then none else
     let outs ← runOps c (StftRaw.fresh (List.replicate c.L 999983)) 0 ops
     some (";".intercalate outs)
   | _ => none
@@ -80,7 +82,7 @@ def handleTorchFrames (args : List String) : Option String := do
   match args with
   | [l, s, ce, ka, n] =>
     let c : Stft.Cfg := { L := ← l.toNat?, S := ← s.toNat?, centered := ← parseBool ce, kaldi := ← parseBool ka }
-    if c.S = 0 ∨ c.L = 0 then none else
+    if c.S = 0 ∨ c.L = 0 ∨ (c.kaldi ∧ c.S / 2 > c.L / 2) then none else
     match TorchStft.frames c (List.range (← n.toNat?)) with
     | some f => some (showFrames f)
     | none => some "X"
